@@ -673,7 +673,7 @@ impl Broker {
             final(self).inv_objects(), final(self).inv_services(), final(self).inv_object_services(), final(self).inv_ownership(),
             final(self).inv_calls(), final(self).inv_callers(), final(self).inv_conns(), final(self).inv_subs(),
             final(self).reg_winv(), final(self).reg_inv(),
-    //@ghost after `self.statistics.num_services = self.statistics.num_services.saturating_add(1);`
+    //@ghost fn-tail
         proof {
             assert(self.service_created(old(self), req.object_cookie, req.uuid, svc_cookie));
             self.lemma_service_created(old(self), id, req.object_cookie, req.uuid, svc_cookie);
@@ -728,7 +728,7 @@ impl Broker {
     //@ghost before#1/3 `return send!(`
         // the occupied entry is released unused: the table is what it was
         proof { assert(self.svcs@ =~= old(self).svcs@); }
-    //@ghost after `self.statistics.num_services = self.statistics.num_services.saturating_add(1);`
+    //@ghost fn-tail
         proof {
             assert(self.service_created(old(self), req.object_cookie, req.uuid, svc_cookie));
             self.lemma_service_created(old(self), id, req.object_cookie, req.uuid, svc_cookie);
